@@ -64,14 +64,17 @@ def run(ck):
             if ttl > e["max"] * 1000:
                 return "cache time %.3f s with %.3f s of validity left: kept past expiry - skew (max %.3f s)" % (ttl / 1e6, c["r"] / 1e3, e["max"] / 1e3)
             return None
+        # the cache counts from the moment the loader returns, which is after the provider returned: the time must not exceed what
+        # was left of (validity - skew) when the provider returned (the provider of the driver takes 120 ms)
+        prov = o.get("rem_prov_us", o["rem_before_us"])
         if o["rem_after_us"] - sk > 0:
-            lim = o["rem_before_us"] - sk
-        elif o["rem_before_us"] - sk <= 0:
+            lim = prov - sk
+        elif prov - sk <= 0:
             lim = fl
         else:
-            lim = max(fl, o["rem_before_us"] - sk)
+            lim = max(fl, prov - sk)
         if ttl > lim:
-            return "loader: cache time %.3f s with %.3f s of validity left (max %.3f s)" % (ttl / 1e6, o["rem_before_us"] / 1e6, lim / 1e6)
+            return "loader: cache time %.3f s with %.3f s of validity left when the certificate provider returned (max %.3f s)" % (ttl / 1e6, prov / 1e6, lim / 1e6)
         return None
 
     def sig_ttl(c, e, o):
